@@ -11,6 +11,7 @@
 #include <functional>
 #include <algorithm>
 #include <unistd.h>
+#include <fcntl.h>
 
 using namespace OP2Utility;
 using mc::Ctx;
@@ -42,12 +43,13 @@ std::vector<uint8_t> wavOf(const Track& t, const ref::WaveFormat& fmt)
 	w.fmt = fmt; w.data = audioOf(t);
 	w.chunkBeforeFmt = t.layout & 1; w.chunkBetween = t.layout & 2; w.chunkAfterData = t.layout & 4;
 	w.fmtSize = (t.layout & 8) ? 18 : 16;
+	w.decoys = (t.len + std::size_t(t.base)) % 2 == 0;   // every other track: extra chunks whose bodies look like chunk headers
 	w.cbSizeValue = (t.layout & 8) ? uint16_t(0) : uint16_t(0);
 	// RIFF: a chunk with an odd length is followed by one pad byte when another chunk follows
 	if (w.chunkAfterData && (w.data.size() & 1)) {
 		auto v = ref::encodeWav(w);
 		// insert the pad byte after the data and fix the RIFF size
-		std::size_t afterData = v.size() - (8 + 6);
+		std::size_t afterData = v.size() - (8 + ref::extraChunkBody(w, 2).size());
 		v.insert(v.begin() + afterData, 0);
 		mc::set32(v, 4, uint32_t(v.size() - 8));
 		return v;
@@ -185,7 +187,7 @@ struct Scenario {
 			else ctx.count("orders/identical-archives");
 			if (!haveFirst) { first = bytes; haveFirst = true; }
 		} while (s.size() > 4 ? (std::rotate(perm.begin(), perm.begin() + 1 + ordersTried % (s.size() - 1), perm.end()), true) : std::next_permutation(perm.begin(), perm.end()));
-		for (auto& t : s) { if (t.layout & 4) ctx.count("layout/chunk-after-data"); if (t.layout & 1) ctx.count("layout/chunk-before-fmt"); if (t.layout & 2) ctx.count("layout/chunk-between"); if (!(t.layout & 8)) ctx.count("layout/fmt-16"); }
+		for (auto& t : s) { if ((t.layout & 1) && (t.len + std::size_t(t.base)) % 2 == 0) ctx.count("layout/decoy-data-header-at-the-usual-offset"); if (t.layout & 4) ctx.count("layout/chunk-after-data"); if (t.layout & 1) ctx.count("layout/chunk-before-fmt"); if (t.layout & 2) ctx.count("layout/chunk-between"); if (!(t.layout & 8)) ctx.count("layout/fmt-16"); }
 		ctx.state(); ctx.trace();
 		ctx.outcome(mc::fnv(first.data(), std::min<std::size_t>(first.size(), 2048)));
 	}
@@ -273,6 +275,52 @@ void refusalCase(Ctx& ctx, int k, Scenario& sc)
 	}
 }
 
+// A clump larger than 2 GiB: the second track's data lies beyond offset 2^31 (offsets and lengths are unsigned 32-bit fields).
+// Really packed from a sparse 2 GiB source (about a second between tmpfs files).
+void beyond2GiB(Ctx& ctx, Scenario& sc)
+{
+	mc::removeTree(sc.root); mc::makeDir(sc.root);
+	if (::chdir(sc.root.c_str()) != 0) std::abort();
+	const uint64_t N = 0x7FFFFFF0ull;
+	std::string key = "tracks big (2147483632 bytes of silence) and zz (6 bytes)";
+	ctx.sub(key);
+	ref::WaveFormat f0 = ref::waveFormat(0);
+	std::vector<uint8_t> audio = { 1, 2, 3, 4, 5, 6 };
+	{ ref::WavSpec w; w.fmt = f0; w.data = audio; mc::writeFile("zz.wav", ref::encodeWav(w)); }
+	{
+		ref::WavSpec w; w.fmt = f0;
+		auto head = ref::encodeWav(w);                         // 44-byte header with empty data
+		mc::set32(head, 4, uint32_t(head.size() - 8 + N)); mc::set32(head, head.size() - 4, uint32_t(N));
+		int fd = ::open("big.wav", O_CREAT | O_TRUNC | O_WRONLY, 0644);
+		if (fd < 0 || ::write(fd, head.data(), head.size()) != ssize_t(head.size()) || ::ftruncate(fd, off_t(head.size() + N)) != 0) std::abort();
+		::close(fd);
+	}
+	auto oc = mc::guarded([&] { Archive::ClmFile::CreateArchive("big.clm", { "zz.wav", "big.wav" }); });
+	ctx.transition();
+	if (oc.cls != 'R') { ctx.violation("C03/beyond-2GiB/create-refused", key, oc.what); return; }
+	auto o = mc::guarded([&] {
+		Archive::ClmFile c("big.clm");
+		if (c.GetCount() != 2 || c.GetName(0) != "big" || c.GetName(1) != "zz") throw std::runtime_error("listing differs");
+		if (c.GetSize(0) != N || c.GetSize(1) != audio.size()) throw std::runtime_error("sizes " + std::to_string(c.GetSize(0)) + ", " + std::to_string(c.GetSize(1)));
+		auto st = c.OpenStream(1);
+		std::vector<uint8_t> got(std::size_t(st->Length())); st->Read(got.data(), got.size());
+		ctx.transition();
+		if (got != audio) throw std::runtime_error("stream of the track stored beyond 2 GiB differs");
+		c.ExtractFile(1, "x.wav");
+		ctx.transition();
+		auto w = ref::parseCanonicalWav(mc::readFile("x.wav"));
+		if (!w.ok || !(w.fmt == f0) || w.data != audio) throw std::runtime_error("extraction of the track stored beyond 2 GiB: " + (w.ok ? std::string("differs") : w.why));
+		auto big = c.OpenStream(0);
+		if (big->Length() != N) throw std::runtime_error("Length of the 2 GiB track " + std::to_string(big->Length()));
+		uint8_t b[8] = { 1, 1, 1, 1, 1, 1, 1, 1 };
+		big->Seek(N - 8); big->Read(b, 8);
+		for (auto x : b) if (x) throw std::runtime_error("tail of the 2 GiB track differs");
+	});
+	if (o.cls != 'R') ctx.violation("C03/beyond-2GiB/reopen-or-extract-throws", key, o.what);
+	ctx.count("beyond-2GiB/archives");
+	ctx.state(); ctx.trace();
+}
+
 void runCase(std::size_t i, Ctx& ctx)
 {
 	Scenario sc{ ctx, ctx.scratch() + "/clm" };
@@ -284,6 +332,7 @@ void runCase(std::size_t i, Ctx& ctx)
 	}
 	else {
 		int k = int(i - nChunks());
+		if (k == kRefusals) { beyond2GiB(ctx, sc); if (::chdir("/") != 0) std::abort(); mc::removeTree(sc.root); return; }
 		if (k == 11) { /* missing input is listed although 'a.wav' alone is valid: handled inside */ }
 		if (k == 11) {
 			mc::removeTree(sc.root); mc::makeDir(sc.root); if (::chdir(sc.root.c_str()) != 0) std::abort();
@@ -306,8 +355,9 @@ int main(int argc, char** argv)
 	mc::CheckDef def;
 	def.id = "C03";
 	def.init = build;
-	def.ncases = [](Ctx&) { return nChunks() + kRefusals; };
+	def.ncases = [](Ctx&) { return nChunks() + kRefusals + 1; };
 	def.run = runCase;
 	def.caseTimeoutS = 300;
+	def.fsizeLimit = std::size_t(3) << 30;   // the clump beyond 2 GiB
 	return mc::Main(argc, argv, def);
 }
